@@ -209,71 +209,81 @@ theorem euclid_dominance (T : Transc R) (a f g f' : R × R) (μ σ : R) (hμσ :
   unfold scoreEuclid; linarith
 
 
-/-! ## geometric scene classes ⇒ `SceneFrame` -/
+/-! ## geometric scene classes ⇒ `SceneFrame`
+
+Features are an arbitrary type `φ` with a projection `π` to the geometry (`φ := Box R × Tag`, `π := Prod.fst`
+in particular): the ground truth `who : φ → Nat` need not be a function of the coordinates, so two animals
+may produce the same box / position at different times. -/
+
+section geo
+variable {φ : Type}
 
 /-- the scene class for `features = bboxes`, `scoring_method = iou`, stated on the geometry:
     a detection's box overlaps every stored box of its own animal in the window and is disjoint
     (≥ 1 px apart in x or y) from every stored box of another animal -/
-structure IouFrame (who : Box R → Nat) (thr : R) (cands : Nat → List (Box R)) (m : Nat)
-    (cur : List (Box R × R)) : Prop where
+structure IouFrame (π : φ → Box R) (who : φ → Nat) (thr : R) (cands : Nat → List φ) (m : Nat)
+    (cur : List (φ × R)) : Prop where
   distinct : (cur.map (fun d => who d.1)).Nodup
   above : ∀ d ∈ cur, thr < d.2
   noStale : ∀ t, t < m → cands t ≠ []
   newcomer : ∀ d ∈ cur, (∀ t, t < m → ∀ f ∈ cands t, who f ≠ who d.1) →
     ∀ t, t < m → ∀ f ∈ cands t, ∃ d' ∈ cur, who d'.1 = who f
-  wfCur : ∀ d ∈ cur, WF d.1
-  wfStored : ∀ t, t < m → ∀ f ∈ cands t, WF f
-  own : ∀ d ∈ cur, ∀ t, t < m → ∀ f ∈ cands t, who f = who d.1 → Overlap d.1 f
-  foreign : ∀ d ∈ cur, ∀ t, t < m → ∀ f ∈ cands t, who f ≠ who d.1 → Disjoint d.1 f
+  wfCur : ∀ d ∈ cur, WF (π d.1)
+  wfStored : ∀ t, t < m → ∀ f ∈ cands t, WF (π f)
+  own : ∀ d ∈ cur, ∀ t, t < m → ∀ f ∈ cands t, who f = who d.1 → Overlap (π d.1) (π f)
+  foreign : ∀ d ∈ cur, ∀ t, t < m → ∀ f ∈ cands t, who f ≠ who d.1 → Disjoint (π d.1) (π f)
 
 /-- `iou_dominance` at frame level: the geometric class discharges the separation hypotheses -/
-theorem sceneFrame_of_iou (who : Box R → Nat) (thr : R) (cands : Nat → List (Box R)) (m : Nat)
-    (cur : List (Box R × R)) (h : IouFrame who thr cands m cur) :
-    SceneFrame who scoreIou thr cands m cur := by
+theorem sceneFrame_of_iou (π : φ → Box R) (who : φ → Nat) (thr : R) (cands : Nat → List φ) (m : Nat)
+    (cur : List (φ × R)) (h : IouFrame π who thr cands m cur) :
+    SceneFrame who (fun a b => scoreIou (π a) (π b)) thr cands m cur := by
   refine ⟨h.distinct, h.above, h.noStale, h.newcomer, ?_, ?_⟩
   · intro d hd t t' ht ht' f hf f' hf' e1 e2
-    exact iou_dominance d.1 f d.1 f' (h.wfCur d hd) (h.wfStored t ht f hf) (h.own d hd t ht f hf e1)
-      (h.foreign d hd t' ht' f' hf' e2)
+    exact iou_dominance (π d.1) (π f) (π d.1) (π f') (h.wfCur d hd) (h.wfStored t ht f hf)
+      (h.own d hd t ht f hf e1) (h.foreign d hd t' ht' f' hf' e2)
   · intro d hd d' hd' t ht f hf f' hf' e1 e2 e3
-    exact iou_dominance d.1 f d'.1 f' (h.wfCur d hd) (h.wfStored t ht f hf) (h.own d hd t ht f hf e1)
+    exact iou_dominance (π d.1) (π f) (π d'.1) (π f') (h.wfCur d hd) (h.wfStored t ht f hf)
+      (h.own d hd t ht f hf e1)
       (h.foreign d' hd' t ht f' hf' (by rw [e2]; exact fun h' => e3 h'.symm))
 
 /-- the scene class for `features = centroids`, `scoring_method = euclidean_dist`: every detection
     is within `μ` of each stored position of its own animal; stored positions of different animals
     and simultaneous detections of different animals are at least `σ` apart; `2μ < σ`
     (motion inside the window smaller than half the separation) -/
-structure EuclidFrame (T : Transc R) (μ σ : R) (who : R × R → Nat) (thr : R)
-    (cands : Nat → List (R × R)) (m : Nat) (cur : List ((R × R) × R)) : Prop where
+structure EuclidFrame (T : Transc R) (μ σ : R) (π : φ → R × R) (who : φ → Nat) (thr : R)
+    (cands : Nat → List φ) (m : Nat) (cur : List (φ × R)) : Prop where
   distinct : (cur.map (fun d => who d.1)).Nodup
   above : ∀ d ∈ cur, thr < d.2
   noStale : ∀ t, t < m → cands t ≠ []
   newcomer : ∀ d ∈ cur, (∀ t, t < m → ∀ f ∈ cands t, who f ≠ who d.1) →
     ∀ t, t < m → ∀ f ∈ cands t, ∃ d' ∈ cur, who d'.1 = who f
   halfSep : 2 * μ < σ
-  own : ∀ d ∈ cur, ∀ t, t < m → ∀ f ∈ cands t, who f = who d.1 → T.sqrt (dist2 d.1 f) ≤ μ
-  sepNow : ∀ d ∈ cur, ∀ d' ∈ cur, who d'.1 ≠ who d.1 → σ ≤ T.sqrt (dist2 d'.1 d.1)
+  own : ∀ d ∈ cur, ∀ t, t < m → ∀ f ∈ cands t, who f = who d.1 → T.sqrt (dist2 (π d.1) (π f)) ≤ μ
+  sepNow : ∀ d ∈ cur, ∀ d' ∈ cur, who d'.1 ≠ who d.1 → σ ≤ T.sqrt (dist2 (π d'.1) (π d.1))
   sepStored : ∀ t t', t < m → t' < m → ∀ f ∈ cands t, ∀ f' ∈ cands t', who f ≠ who f' →
-    σ ≤ T.sqrt (dist2 f f')
+    σ ≤ T.sqrt (dist2 (π f) (π f'))
 
 /-- `euclid_dominance` at frame level (triangle inequality) -/
-theorem sceneFrame_of_euclid (T : Transc R) (μ σ : R) (who : R × R → Nat) (thr : R)
-    (cands : Nat → List (R × R)) (m : Nat) (cur : List ((R × R) × R))
-    (h : EuclidFrame T μ σ who thr cands m cur) :
-    SceneFrame who (scoreEuclid T.sqrt) thr cands m cur := by
+theorem sceneFrame_of_euclid (T : Transc R) (μ σ : R) (π : φ → R × R) (who : φ → Nat) (thr : R)
+    (cands : Nat → List φ) (m : Nat) (cur : List (φ × R))
+    (h : EuclidFrame T μ σ π who thr cands m cur) :
+    SceneFrame who (fun a b => scoreEuclid T.sqrt (π a) (π b)) thr cands m cur := by
   refine ⟨h.distinct, h.above, h.noStale, h.newcomer, ?_, ?_⟩
   · intro d hd t t' ht ht' f hf f' hf' e1 e2
     have hown := h.own d hd t ht f hf e1
     have hsep := h.sepStored t t' ht ht' f hf f' hf' (by rw [e1]; exact fun h' => e2 h'.symm)
-    have htri := dist_triangle T f d.1 f'
-    rw [dist2_comm f d.1] at htri
-    exact euclid_dominance T d.1 f d.1 f' μ σ h.halfSep hown (by linarith)
+    have htri := dist_triangle T (π f) (π d.1) (π f')
+    rw [dist2_comm (π f) (π d.1)] at htri
+    exact euclid_dominance T (π d.1) (π f) (π d.1) (π f') μ σ h.halfSep hown (by linarith)
   · intro d hd d' hd' t ht f hf f' hf' e1 e2 e3
     have hown := h.own d hd t ht f hf e1
     have hown' := h.own d hd t ht f' hf' e2
     have hsep := h.sepNow d hd d' hd' e3
-    have htri := dist_triangle T d'.1 f' d.1
-    rw [dist2_comm f' d.1] at htri
-    exact euclid_dominance T d.1 f d'.1 f' μ σ h.halfSep hown (by linarith)
+    have htri := dist_triangle T (π d'.1) (π f') (π d.1)
+    rw [dist2_comm (π f') (π d.1)] at htri
+    exact euclid_dominance T (π d.1) (π f) (π d'.1) (π f') μ σ h.halfSep hown (by linarith)
+
+end geo
 
 /-! ## classes along the run, with an arbitrary per-frame predicate -/
 
